@@ -84,6 +84,26 @@ func Run(c *common.Ctx) error {
 		cf.Add(h.CoqCase(), map[string]any{"kind": "history", "page_size": cfg.PageSize, "scripted": "leaving WAL mode", "steps": h.Steps})
 		h.Close()
 	}
+	// a database that grows across pages SQLite never writes (free-list leaves), with restarts in between
+	for _, ps := range []int{512, 65536} {
+		cfg := hist.Config{PageSize: ps, AllowWAL: true}
+		h, err := hist.New(c, c.Rng.Fork(), cfg)
+		if err != nil {
+			if h != nil {
+				h.Close()
+			}
+			return fmt.Errorf("history setup: %w", err)
+		}
+		for _, st := range hist.UnwrittenGrowthSteps() {
+			if ob := h.Exec(st); ob.Panic != "" || len(ob.Exits) > 0 {
+				break
+			}
+		}
+		h.CheckCrash(c, "C02")
+		h.CheckCapture(c, "C02", map[string]bool{"rtx": true, "lockonly": true, "wtx": true})
+		cf.Add(h.CoqCase(), map[string]any{"kind": "history", "page_size": cfg.PageSize, "scripted": "growth across unwritten pages", "steps": h.Steps})
+		h.Close()
+	}
 	nHist := c.Pick(18, 160)
 	for i := 0; i < nHist; i++ {
 		cfg := cfgs[i%len(cfgs)]
